@@ -217,3 +217,10 @@ Definition decl_sites_used : list site :=
 Lemma decl_sites_are_model_sites :
   forallb (fun x => existsb (fun y => String.eqb (s_func x) (s_func y) && ext_eqb (s_ext x) (s_ext y)) model_sites) decl_sites_used = true.
 Proof. vm_compute. reflexivity. Qed.
+
+Definition service_full_statement : Prop :=
+  forall sv, service_in_language sv = true -> verdict_d (compile_service sv) = VOk.
+Lemma service_full_refuted : ~ service_full_statement.
+Proof.
+  intro H. destruct service_listrequest_panics as [Hl Hp]. rewrite (H _ Hl) in Hp. discriminate.
+Qed.
